@@ -126,8 +126,9 @@ impl Body {
 
 STREAM = r'''
 // ---- crate::codec::Streaming seen by the dispatcher: which decoder / body it wraps and in which mode (its decoding
-// functions are under contract in unit decode).  `new` itself (Box::new(decoder), body.map_frame(..)) is assumed:
-// A-tonic-decode-01: Streaming::new stores its arguments; nothing is buffered yet
+// functions are under contract in unit decode).
+// A-tonic-decode-01: Streaming::new stores its arguments; nothing is buffered yet (PROVED on the real body in unit decode, clause C1;
+// linked here as a callee contract)
 pub struct Streaming<T> { pub decoder: Ghost<int>, pub body: Ghost<int>, pub direction: Direction, pub encoding: Option<CompressionEncoding>,
     pub max_message_size: Option<usize>, pub _t: core::marker::PhantomData<T> }
 pub uninterp spec fn erased_decoder<D>(d: D) -> int;
